@@ -96,6 +96,12 @@ func (rww *responseWriterWrapper) WriteHeader(status int) {
 	if rww.wroteHeader {
 		return
 	}
+	if isInformational(status) {
+		// an informational response (such as 103 Early Hints)
+		// goes out as it is; the final header is still to come
+		rww.ResponseWriterWrapper.WriteHeader(status)
+		return
+	}
 	rww.wroteHeader = true
 	// capture the original headers
 	h := rww.Header()
@@ -106,6 +112,12 @@ func (rww *responseWriterWrapper) WriteHeader(status int) {
 	}
 
 	rww.ResponseWriterWrapper.WriteHeader(status)
+}
+
+// isInformational reports whether status is a 1xx status after which
+// the final response header still follows.
+func isInformational(status int) bool {
+	return status >= 100 && status < 200 && status != http.StatusSwitchingProtocols
 }
 
 // Flush implements http.Flusher. Flushing commits the response header,
